@@ -16,10 +16,10 @@ import (
 type Body func(s *verifrt.Sched) (observe func() string)
 
 type Point struct {
-	Enabled  int
-	Running  bool // the previously running thread is still enabled (switching away is a preemption)
-	Chosen   int
-	Desc     []string
+	Enabled int
+	Running bool // the previously running thread is still enabled (switching away is a preemption)
+	Chosen  int
+	Desc    []string
 }
 
 type Exec struct {
